@@ -40,92 +40,54 @@ theorem C10_noninterf (F : BodyFn) (P P' : Project) (cfg cfg' : Cfg) (w : World)
 /-- Well-formedness assumed of projects: no task's module file is declared as the product of a task. -/
 def C10_srcNotProduct (P : Project) : Prop := ∀ t, t ∈ P.tasks → ∀ u, u ∈ P.tasks → t.src ∉ u.prods
 
-/-- **C10_superset, full strength.** `d` is a complete dry run (no failure limit; all options as in `cfg`) from world `w`,
-`r` the immediately following real build with the same options: every task whose body `r` invokes carries the
-outcome WOULD_BE_EXECUTED in `d` — for every project, world, selection, `force` and all schedules of both builds. -/
-def C10_superset_full : Prop :=
-  ∀ (F : BodyFn) (P : Project) (cfg : Cfg) (w : World) (dp rp : List Nat) (d r : Result),
-    cfg.dry = false → cfg.maxFail = none → C10_srcNotProduct P →
-    build F P { cfg with dry := true } w dp = .ok d → d.complete = true →
-    build F P cfg d.w rp = .ok r →
-    ∀ t, t ∈ r.log → (t, Outcome.wouldBeExecuted) ∈ d.reports
-
-/-- Finding F20 witness: 0 ⟶ (20) ⟶ 1, task 1 marked `persist`; everything was built once, then file 20 was tampered. -/
-def f20P : Project := ⟨[{ id := 0, src := 90, deps := [10], prods := [20], after := [] },
-                        { id := 1, src := 90, deps := [20], prods := [21], after := [], persist := true }]⟩
-def f20F : BodyFn := fun t i src ds => t + i + src.getD 0 + ds.foldl (fun a d => a + d.getD 0) 1
-/-- the world after a complete first build, with the intermediate file 20 overwritten by hand -/
-def f20w : World :=
-  match build f20F f20P {} ⟨[(10, 5), (90, 1)], []⟩ [0, 1] with
-  | .ok r => { r.w with fs := Engine.insert r.w.fs 20 999 }
-  | .error _ => ⟨[], []⟩
-
-/-- With `force`, the dry run reports task 1 as PERSISTENCE (its dependency 20 differs from the recorded state), but
-the forced real build first re-creates 20 — equal to the recorded state again — so the persist hook stays quiet and
-`force` executes task 1. -/
-def f20check : Bool :=
-  match build f20F f20P { force := true, dry := true } f20w [0, 1] with
-  | .ok d =>
-    d.complete && d.reports.contains (1, Outcome.persistence) && !d.reports.contains (1, Outcome.wouldBeExecuted) &&
-    (match build f20F f20P { force := true } d.w [0, 1] with
-     | .ok r => r.log.contains 1
-     | .error _ => false)
-  | .error _ => false
-
-theorem f20check_true : f20check = true := by decide +kernel
-
-/-- **The full-strength superset clause is false of the current code** (finding F20: `force` + `persist`). -/
-theorem C10_superset_full_false : ¬ C10_superset_full := by
-  intro h
-  have hc := f20check_true
-  unfold f20check at hc
-  split at hc
-  · rename_i d hd
-    simp only [Bool.and_eq_true] at hc
-    obtain ⟨⟨⟨hcomp, _⟩, hnot⟩, hr⟩ := hc
-    split at hr
-    · rename_i r hr'
-      have := h f20F f20P { force := true } f20w [0, 1] [0, 1] d r rfl rfl (by unfold C10_srcNotProduct; decide) hd hcomp hr' 1 (by simpa using hr)
-      simp [this] at hnot
-    · cases hr
-  · cases hc
-
-/-- **C10_superset_partial.** The superset clause holds whenever `force` is not combined with `persist` markers: every task
-the real build executes was announced WOULD_BE_EXECUTED by every complete dry run from the same state with the same
-selection / force options — for all schedules of both builds, all worlds (fresh, partially built, after failures,
-after edits), skip / skipif / persist markers and selections. (The real build may execute *fewer* tasks than announced:
-it may fail or be limited by `max_failures`; only the dry run must be unlimited.) -/
-theorem C10_superset_partial (F : BodyFn) (P : Project) (cfg : Cfg) (w : World) (dp rp : List Nat) (d r : Result)
+/-- **C10_superset (full strength).** `d` is a complete dry run (no failure limit; all options as in `cfg`) from world
+`w`, `r` the immediately following real build with the same options: every task whose body `r` invokes carries the
+outcome WOULD_BE_EXECUTED in `d` — for every project, world (fresh, partially built, after failures, after edits),
+skip / skipif / persist markers, selections, `force`, and all schedules of both builds. (The real build may execute
+*fewer* tasks than announced: it may fail or be limited by `max_failures`; only the dry run must be unlimited.)
+Holds since the repair of finding F20 (a task carrying `would_be_executed` is not persisted). -/
+theorem C10_superset_full (F : BodyFn) (P : Project) (cfg : Cfg) (w : World) (dp rp : List Nat) (d r : Result)
     (hreal : cfg.dry = false) (hmf : cfg.maxFail = none) (hwf : C10_srcNotProduct P)
-    (hclass : cfg.force = true → ∀ t, t ∈ P.tasks → t.persist = false)
     (hd : build F P { cfg with dry := true } w dp = .ok d) (hc : d.complete = true)
     (hr : build F P cfg d.w rp = .ok r) :
     ∀ t, t ∈ r.log → (t, Outcome.wouldBeExecuted) ∈ d.reports := by
   rw [C10_noworld F P _ w dp d rfl hd] at hr
   intro t ht
-  -- every logged task was picked
   have hpick : t ∈ rp := by
     rcases build_cases F P cfg w rp r hr with ⟨_, _, hlog, _⟩ | ⟨g, marks, so, so', s, _, hso, hl, _, hlog, _, _⟩
     · rw [hlog] at ht; cases ht
     · obtain ⟨_, l, hsub, _, hl'⟩ := C01_once F P cfg g so so' _ s rp hso hl
       rw [hlog, hl'] at ht
       exact hsub.subset (by simpa using ht)
-  exact (build_Q hreal hmf hwf hclass hd hc hr t hpick).2.2 ht
+  exact (build_Q hreal hmf hwf hd hc hr t hpick).2.2 ht
 
-/-- **C10_failures.** Failure / skip propagation under the same hypotheses: a task the complete dry run reports as
+/-- Former finding F20 witness: 0 ⟶ (20) ⟶ 1, task 1 marked `persist`; everything was built once, then file 20 was tampered. -/
+def f20P : Project := ⟨[{ id := 0, src := 90, deps := [10], prods := [20], after := [] },
+                        { id := 1, src := 90, deps := [20], prods := [21], after := [], persist := true }]⟩
+def f20F : BodyFn := fun t i src ds => t + i + src.getD 0 + ds.foldl (fun a d => a + d.getD 0) 1
+def f20w : World :=
+  match build f20F f20P {} ⟨[(10, 5), (90, 1)], []⟩ [0, 1] with
+  | .ok r => { r.w with fs := Engine.insert r.w.fs 20 999 }
+  | .error _ => ⟨[], []⟩
+
+/-- Non-vacuity on the former F20 witness: the forced dry run now announces task 1, and the forced build executes it. -/
+example : (build f20F f20P { force := true, dry := true } f20w [0, 1]).toOption.map (fun d => (d.reports.map (·.2), d.complete)) =
+    some ([.wouldBeExecuted, .wouldBeExecuted], true) := by decide +kernel
+example : (build f20F f20P { force := true } f20w [0, 1]).toOption.map (·.log) = some [0, 1] := by decide +kernel
+
+/-- **C10_failures.** Failure / skip propagation: a task the complete dry run reports as
 SKIP is reported SKIP by the real build (if it gets that far), and a task the dry run reports as FAIL (a dependency is
 missing at setup) or SKIP_PREVIOUS_FAILED is, in the real build, skipped, skipped because of a failed ancestor, or
 fails — it is never reported as successful or persisted or unchanged. -/
 theorem C10_failures (F : BodyFn) (P : Project) (cfg : Cfg) (w : World) (dp rp : List Nat) (d r : Result)
     (hreal : cfg.dry = false) (hmf : cfg.maxFail = none) (hwf : C10_srcNotProduct P)
-    (hclass : cfg.force = true → ∀ t, t ∈ P.tasks → t.persist = false)
     (hd : build F P { cfg with dry := true } w dp = .ok d) (hc : d.complete = true)
     (hr : build F P cfg d.w rp = .ok r) (t : Nat) (ht : t ∈ rp) :
     ((t, Outcome.skip) ∈ d.reports → (t, Outcome.skip) ∈ r.reports) ∧
     (((t, Outcome.fail) ∈ d.reports ∨ (t, Outcome.skipPrevFailed) ∈ d.reports) →
       (t, Outcome.skip) ∈ r.reports ∨ (t, Outcome.skipPrevFailed) ∈ r.reports ∨ (t, Outcome.fail) ∈ r.reports) := by
   rw [C10_noworld F P _ w dp d rfl hd] at hr
-  have := build_Q hreal hmf hwf hclass hd hc hr t ht
+  have := build_Q hreal hmf hwf hd hc hr t ht
   exact ⟨this.1, this.2.1⟩
 
 /-! ## Non-vacuity -/
@@ -147,7 +109,7 @@ example : (build c10F c10P { dry := true } c10w [0, 1, 2, 3]).toOption.map (fun 
 example : (build c10F c10P {} c10w [0, 3, 1, 2]).toOption.map (fun r => (r.log, r.complete)) = some ([0, 3, 1, 2], true) := by
   decide +kernel
 
-/-- The hypotheses of `C10_superset_partial` are satisfiable on that project (no `force`, a `persist` task present): the
+/-- The hypotheses of `C10_superset_full` are satisfiable on that project (no `force`, a `persist` task present): the
 dry run is complete, the real build executes all four tasks and all four were announced. -/
 example : C10_srcNotProduct c10P := by unfold C10_srcNotProduct; decide
 example : (build c10F c10P { dry := true } c10w [0, 3, 1, 2]).toOption.map (·.complete) = some true := by decide +kernel
